@@ -983,6 +983,14 @@ func (g *gen) immSite(sc *scope, td *TypeDecl, o *Var) *Site {
 	switch s.Kind {
 	case "imm.assign", "imm.compound", "imm.incdec", "imm.index":
 		s.ParenTarget = g.chance("parenTarget", 8)
+	case "imm.tuple", "imm.tuple2":
+		// x.f, x.g = pair(): one multi-value expression on the right-hand side
+		if g.chance("tupleFromCall", 40) {
+			s.Aux = "call"
+			if s.Kind == "imm.tuple" && g.chance("tupleSecond", 50) {
+				s.Aux = "call1"
+			}
+		}
 	}
 	return s
 }
@@ -1514,6 +1522,15 @@ func (g *gen) callFamily(sc *scope, pkg *Pkg, td *TypeDecl, own []*TypeDecl, ear
 		kind := "call"
 		if g.chance("funcvalue", 15) {
 			kind = "funcvalue"
+		}
+		// F(&T{}): an instantiation nested in the argument list of a call
+		if kind == "call" && !fd.Generic && g.chance("argLiteral", 40) {
+			for _, pv := range fd.Params {
+				if pv.Ref != nil && pv.Ref.Ptr && pv.Ref.Wrap == "" && pv.Ref.Type.Kind == KStruct && pv.Ref.Type.AliasOf == nil &&
+					(pv.Ref.Type.Exported() || (pv.Ref.Type.Pkg == pkg && !g.inXTest)) {
+					return &Site{ID: g.p.NewID(), Kind: "call.arglit", Fn: fd, Type: pv.Ref.Type, Ref: &TypeRef{Type: pv.Ref.Type}, Opnd: pv}
+				}
+			}
 		}
 		return &Site{ID: g.p.NewID(), Kind: kind, Fn: fd, Inst: fd.Generic && g.chance("explicitInstance", 50), ParenCallee: kind == "call" && g.chance("parenCallee", 12)}
 	case k < 85 && len(ms) > 0:
